@@ -611,7 +611,19 @@ class SymInt:
     def __ge__(s, o):
         if type(o) is SymReal: return NotImplemented
         return SymBool(s.t >= T(o))
-    __hash__ = None
+    def __hash__(s):
+        """a symbolic integer used as a dictionary key / set member (memo tables keyed by a value): the value is made
+        concrete on this path by forking over a small range; beyond it the path is cut (counted in the statistics)"""
+        if getattr(ENG, "frozen", False):
+            k = ENG.unique_value(s.t)
+            if k is None:
+                raise Unsupported("hash() of a SymInt that is not determined by the path")
+            return hash(k)
+        for k in (0, 1, 2, 3, -1, 4, -2, 5, 6, 7, 8, -3, -4):      # stated bound: hashed symbolic integers in [-4, 8]
+            if s == k:
+                return hash(k)
+        ENG.stats["cut_large_hash"] = ENG.stats.get("cut_large_hash", 0) + 1
+        raise Abort()
 
     def __bool__(s):
         return ENG.branch(s.t != 0)
